@@ -659,8 +659,28 @@ func checkNameSpaces(c *Ctx, ev *evaluator) {
 		c.Lost("R1.2", "terminalNames table")
 	}
 
-	// R1.5: term → STRING and term → TOKEN both build the terminal from the raw lexeme
+	// R1.5: term → STRING and term → TOKEN both build the terminal from the lexeme without a distinguishing mark
 	identity := map[string]bool{}
+	// plain: the expression is rhs[0].Val seen through conversions, assertions and string->string helper calls only
+	var plain func(e ast.Expr) bool
+	plain = func(e ast.Expr) bool {
+		e = ast.Unparen(e)
+		if k, ok := ev.rhsVal(stripAssert(e)); ok && k == 0 {
+			return true
+		}
+		if call, ok := e.(*ast.CallExpr); ok && len(call.Args) == 1 {
+			if tv, ok := info.Types[call.Fun]; ok && tv.IsType() {
+				return plain(call.Args[0])
+			}
+			if fo, ok := objOf(info, call.Fun).(*types.Func); ok {
+				sig := fo.Type().(*types.Signature)
+				if sig.Params().Len() == 1 && sig.Results().Len() == 1 && isString(sig.Params().At(0).Type()) && isString(sig.Results().At(0).Type()) && fo.Pkg() != nil && fo.Pkg().Path() != "strconv" {
+					return plain(call.Args[0]) // e.g. an unescape helper: the identity on escape-free text
+				}
+			}
+		}
+		return false
+	}
 	for _, cs := range ev.cases {
 		if cs.prod.head != "term" || len(cs.prod.body) != 1 {
 			continue
@@ -669,21 +689,16 @@ func checkNameSpaces(c *Ctx, ev *evaluator) {
 			if len(r.Results) != 2 {
 				continue
 			}
-			// a := grammar.Terminal(rhs[0].Val.(string)); return a
 			if id, ok := ast.Unparen(r.Results[0]).(*ast.Ident); ok {
 				for _, st := range cs.clause.Body {
 					if as, ok := st.(*ast.AssignStmt); ok && len(as.Lhs) == 1 && len(as.Rhs) == 1 {
-						if lid, ok := as.Lhs[0].(*ast.Ident); ok && info.Defs[lid] == info.Uses[id] {
-							if call, ok := ast.Unparen(as.Rhs[0]).(*ast.CallExpr); ok && len(call.Args) == 1 {
-								if tv, ok := info.Types[call.Fun]; ok && tv.IsType() {
-									if k, ok := ev.rhsVal(stripAssert(call.Args[0])); ok && k == 0 {
-										identity[cs.prod.body[0].name] = true
-									}
-								}
-							}
+						if lid, ok := as.Lhs[0].(*ast.Ident); ok && info.Defs[lid] == info.Uses[id] && plain(as.Rhs[0]) {
+							identity[cs.prod.body[0].name] = true
 						}
 					}
 				}
+			} else if plain(r.Results[0]) {
+				identity[cs.prod.body[0].name] = true
 			}
 		}
 	}
